@@ -4,7 +4,7 @@
 //! raw group operations (`RefGroup`).  No allocation: fixed-capacity byte strings.
 
 use digest::{core_api::BlockSizeUser, Digest};
-use hpke::verif_model::{ConstHash, InternHash, LinHash, LIN_K, LIN_SEED};
+use hpke::verif_model::{ConstHash, EndsHash, InternHash, LinHash, LIN_K, LIN_SEED};
 
 /// fixed-capacity byte string
 #[derive(Clone, Copy)]
@@ -89,6 +89,23 @@ impl RefHash for InternHash {
     const BLOCK: usize = 12;
     fn hash(parts: &[&[u8]]) -> Digest64 {
         hash_via_digest::<InternHash>(parts)
+    }
+}
+/// the sketch hash for long inputs (see sketch.rs): H(concat(parts))
+impl RefHash for EndsHash {
+    const NH: usize = 8;
+    const BLOCK: usize = 8;
+    fn hash(parts: &[&[u8]]) -> Digest64 {
+        let mut s = crate::sketch::sketch_new();
+        let mut p = 0;
+        while p < parts.len() {
+            crate::sketch::sketch_absorb(&mut s, parts[p]);
+            p += 1;
+        }
+        let mut r = Digest64::new();
+        r.b[..8].copy_from_slice(&crate::sketch::sketch_finish(&s));
+        r.n = 8;
+        r
     }
 }
 impl RefHash for ConstHash {
